@@ -37,8 +37,17 @@ TEXTS = [
     b'fn ( a , "b c" , d ) sec { x = 1 q = ptr1 q = ptr2 } m t1 { y = v yl += { c } r = { r1 , r2 } } m t2 { } m t1 { y = again }',
     b'# note\ni = 1 /* c */ s = two u a { z = 1 } u b { z = 2 } include ( "inc1.conf" ) i = 9',
     b'sec { include ( "inc2.conf" ) x = 4 } m "q t" { r = { a } } pl += { z } fn ( )',
+    # every way an include can be refused, each followed by further use: nothing may stay open or allocated
+    b'i = 1 include ( "self.conf" ) i = 2',
+    b'p = keep include ( "nosuch.conf" ) i = 2',
+    b'sec { q = held include ( "chain1.conf" ) } i = 3',
+    b'pl = { a , b } include ( "adir" ) i = 4',
+    b'm t1 { r = { r1 } } include ( "bad.conf" ) i = 5',
 ]
-FILES = [("inc1.conf", b'l = { 7 } m inc { y = "from include" r = { k } }\n'), ("inc2.conf", b"x = 2 q = pp\n"), ]
+FILES = [("inc1.conf", b'l = { 7 } m inc { y = "from include" r = { k } }\n'), ("inc2.conf", b"x = 2 q = pp\n"),
+         ("self.conf", b'l += { 1 }\ninclude("self.conf")\n'),                       # exceeds the depth limit with the file open
+         ("chain1.conf", b'x = 7\ninclude("chain2.conf")\n'), ("chain2.conf", b'q = deep\ninclude("nosuch2.conf")\n'),
+         ("bad.conf", b'p = obj\nm t2 { r = { z }\n= oops\n'), ("adir/keep", None)]
 SEP = [b"{", b"}", b"=", b"+=", b",", b"(", b")"]
 
 
@@ -57,7 +66,8 @@ def parse_cases(rng, tier, root):
         for vname, vt in variants:
             for flags, sp in ((0, False), (COMMENTS, True)):
                 cdir = "%s/p%d" % (root, n)
-                lines = schema_lines(PSCHEMA) + ["CWD " + hx(cdir)] + ["FILE %s reg %s" % (hx(("incdir/" if sp else "") + nm), hx(c)) for nm, c in FILES]
+                lines = schema_lines(PSCHEMA) + ["CWD " + hx(cdir)] + [("FILE %s reg %s" % (hx(("incdir/" if sp else "") + nm), hx(c))) if c is not None else
+                                                                          ("FILE %s dir ." % hx(("incdir/" if sp else "") + nm)) for nm, c in FILES]
                 lines += ["X 0 %d" % flags, "LIVE"]
                 if sp:
                     lines += ["SP 0 " + hx("incdir"), "SP 0 " + hx("other"), "LIVE"]
